@@ -64,13 +64,15 @@ def build_cards(kind, cards, pooled=("P", "Q")):
             votes[CID] = dict(cont[cc])
         if ph:
             votes = {CID: {}} if cc == "blank" else {}
+        if i % 2 == 0:
+            ph = np.bool_(ph)  # flags that come out of numpy / pandas are truthy or falsy without being the objects True / False
         if votes:
             cvrs.append(CVR(id=f"card{i}", votes=votes, phantom=ph, tally_pool=("P" if p == "Pu" else p), pool=(p in pooled), sample_num=i + 1))
         else:  # a record without any contest is built the short way: no votes argument (the constructor's own default)
             cvrs.append(CVR(id=f"card{i}", phantom=ph, tally_pool=("P" if p == "Pu" else p), pool=(p in pooled), sample_num=i + 1))
         cvrs[-1].sampled = True  # every card of a sample carries the flag consistent_sampling leaves on it (whichever contest it was drawn for)
         if mc == "unfindable":
-            mvrs.append(CVR(id=f"card{i}", phantom=True))  # likewise without a votes argument
+            mvrs.append(CVR(id=f"card{i}", phantom=(np.True_ if i % 2 == 0 else True)))  # likewise without a votes argument
         else:
             mv = {"other": {"X": True}}
             if cont[mc] is not None:
@@ -94,7 +96,7 @@ def build_assertion(kind, audit_type, use_style, n_cards, test=None, estim=None,
                              "share_to_win": SM[kind][0] if kind in SM else None, "candidates": list(CANDS), "winner": ["A"],
                              "assertion_file": "x" if js else None, "assertion_json": js, "audit_type": audit_type,
                              "test": test or NonnegMean.alpha_mart, "estim": estim, "bet": None, "test_kwargs": test_kwargs or {}, "g": 0.1,
-                             "use_style": use_style, "sample_size": None, "sample_threshold": None, "tally": None})
+                             "use_style": (np.bool_(use_style) if n_cards % 2 == 1 else use_style), "sample_size": None, "sample_threshold": None, "tally": None})
     cons = {CID: con}
     Assertion.make_all_assertions(cons)
     if direct and kind in SM:  # the constructor called directly, its optional share_to_win left out: the contest's share rules
